@@ -45,9 +45,10 @@ def keys():
 
 class World:
     def __init__(self, pkmode='callback', noauth=(), sig_variant='wrongsid',
-                 probe_kind='open', workdir=None):
+                 probe_kind='open', workdir=None, nokeys=()):
         self.pkmode = pkmode
         self.noauth = set(noauth)
+        self.nokeys = set(nokeys)     # users for whom no key is authorised
         self.sig_variant = sig_variant
         self.probe_kind = probe_kind
         self.loop = new_loop()
@@ -108,6 +109,12 @@ class World:
                 world.events.append(('server_lost', type(exc).__name__))
 
             def begin_auth(self, username):
+                if world.pkmode == 'begin' and username in USERS and \
+                        username not in world.nokeys:
+                    # the pattern of the documentation: the user's keys are
+                    # installed when authentication begins for that user
+                    world.sconn.set_authorized_keys(os.path.join(
+                        world.tmp, username, 'authorized_keys'))
                 return world.app_call('begin', username, None,
                                       lambda: username not in world.noauth)
 
@@ -125,6 +132,7 @@ class World:
                 return world.app_call(
                     'pk', username, None,
                     lambda: username in USERS and
+                    username not in world.nokeys and
                     key.public_data == k[username].public_data)
 
             def kbdint_auth_supported(self):
@@ -151,13 +159,16 @@ class World:
                 return False
 
         opts = dict(server_factory=Server, server_host_keys=[k['host']])
-        if self.pkmode == 'config':
+        if self.pkmode in ('config', 'begin'):
             self.tmp = tempfile.mkdtemp(prefix='authcfg', dir=self.workdir)
             for u in USERS:
+                if u in self.nokeys:
+                    continue
                 os.makedirs(os.path.join(self.tmp, u))
                 with open(os.path.join(self.tmp, u, 'authorized_keys'),
                           'w') as f:
                     f.write(k[u].export_public_key('openssh').decode())
+        if self.pkmode == 'config':
             cfg = os.path.join(self.tmp, 'sshd_config')
             with open(cfg, 'w') as f:
                 f.write(f'AuthorizedKeysFile {self.tmp}/%u/authorized_keys\n')
@@ -302,13 +313,13 @@ def _cred(c):
 # L1 monitor: AuthSoundObs / GateUntilAuth on observables only
 # ----------------------------------------------------------------------
 
-def valid_for(u, m):
+def valid_for(u, m, nokeys=()):
     if m['kind'] != 'req' or m['user'] != u:
         return False
     if m['method'] == 'password':
         return m['cred'] == u
     if m['method'] == 'pks':
-        return m['cred'] == u and m['sig'] == 'ok'
+        return m['cred'] == u and m['sig'] == 'ok' and u not in nokeys
     return False
 
 
@@ -326,7 +337,7 @@ def l1_violations(world):
     msgs = world.sent_msgs
     for u in obs['completedUsers']:
         ok = (u in world.noauth or
-              any(valid_for(u, m) for m in msgs) or
+              any(valid_for(u, m, world.nokeys) for m in msgs) or
               any(kbd_valid_for(u, msgs, i) for i in range(len(msgs))))
         if not ok:
             bad.append(f'AuthSound: access granted to {u!r} but no valid '
